@@ -204,6 +204,10 @@ def monitor(cfg, toks, raw):
             if _lt(loss, fin_bar):
                 fin_bar, fin_best = loss, k + 1
             prev_out = k + 1
+        # the reference model runs a round until max_train steps are done or patience+1 consecutive non-improving losses have
+        # been seen IN THAT ROUND (the count starts afresh with every round): a shorter round was cut short
+        if len(cl) < mt and nonimp < pa + 1:
+            bad.append(("round-length", f"round {r} stopped after {len(cl)} of {mt} steps with only {nonimp} consecutive non-improving losses at its end (patience {pa})"))
         best_state = cur_best
         if r == nr - 1:
             if raw["best"] != fin_best:
